@@ -27,6 +27,7 @@ def check(run):
     for k in sorted(c.contracts):
         if k.startswith("valid:") and k.count(":") == 2 or k in ("valid:treeinfo.Images", "valid:treeinfo.Checksums"):
             verify.verify(run, c.E, c.contracts[k])
+    verify.verify(run, c.E, c.contracts["ser:composeinfo.Variants:any"], crosscheck=False)
     # the scanning validators on tables of ARBITRARY size (witness rule, pyvc/anycoll.py): every entry, not the first two
     for k in sorted(c.contracts):
         if k.startswith("scan:"):
